@@ -632,6 +632,9 @@ where
     #[cfg_attr(feature = "tracing", tracing::instrument(name = "Session::event_loop", skip(self), fields(outgoing_channel = %self.session.outgoing_channel().0)))]
     async fn event_loop(mut self, tx: oneshot::Sender<Result<(), Error>>) {
         let mut outcome = Ok(());
+        // Set once `outgoing_link_frames` has been closed and drained: a closed channel is
+        // always ready, polling it again would spin until the remote End arrives
+        let mut outgoing_link_frames_done = false;
         loop {
             let result = tokio::select! {
                 incoming = self.incoming.recv() => {
@@ -696,7 +699,7 @@ where
                         }
                     }
                 },
-                frame = self.outgoing_link_frames.recv() => {
+                frame = self.outgoing_link_frames.recv(), if !outgoing_link_frames_done => {
                     match frame {
                         Some(frame) => self.on_outgoing_link_frames(frame).await,
                         None => {
@@ -704,6 +707,7 @@ where
                             //
                             // Upon ending, all link-to-session channels will be closed
                             // first while the session is still waitint for remote end frame.
+                            outgoing_link_frames_done = true;
                             Ok(Running::Continue)
                         }
                     }
